@@ -385,6 +385,7 @@ class FnEdit:
         self.before_result = []
         self.inline_lits = []
         self.loopstarts = {}
+        self.desugar_try = False
 
     def apply(self, src):
         sig, body, line = find_fn(src, self.owner, self.name)
@@ -485,6 +486,47 @@ class FnEdit:
             for m in ms:
                 reps.append((m.start(), m.end(), m.expand(tmpl)))
             log.append('rewrite-re %r => %r (x%d)' % (rx, tmpl, cnt))
+        if self.desugar_try:
+            # `EXPR?;` (statement-final try) => the language-defined desugaring with an explicit From::from call.
+            # Verus leaves the converted error of `?` unconstrained when the error types differ; the explicit call is
+            # checked against the From impl's specification.  Purely syntactic, applied to every statement-final `?`.
+            cps = list(code_positions(body))
+            cset = set(cps)
+            n_try = 0
+            for q in cps:
+                if body[q] != '?':
+                    continue
+                k = q + 1
+                while k < len(body) and body[k] in ' \t\n':
+                    k += 1
+                if k >= len(body) or body[k] != ';':
+                    raise ExtractionError('%s: a `?` that does not end its statement cannot be desugared' % self.name)
+                depth = 0
+                st = 0
+                for j in reversed([c for c in cps if c < q]):
+                    ch = body[j]
+                    if ch in ')]}':
+                        if ch == '}' and depth == 0:
+                            st = j + 1
+                            break
+                        depth += 1
+                    elif ch in '([{':
+                        if depth == 0:
+                            st = j + 1
+                            break
+                        depth -= 1
+                    elif ch == ';' and depth == 0:
+                        st = j + 1
+                        break
+                # statement text starts at the first code character (skip leading comments / blank space)
+                st = min([c for c in cps if c >= st and not body[c].isspace()] + [q])
+                stmt = body[st:q]
+                m = re.match(r'\s*let\s[^=]*=(?!=)', stmt)
+                es = st + (m.end() if m else len(stmt) - len(stmt.lstrip()))
+                expr = body[es:q].strip()
+                reps.append((es, q + 1, ' match %s { Ok(v__) => v__, Err(e__) => return Err(From::from(e__)) }' % expr))
+                n_try += 1
+            log.append('desugar-try: %d statement-final `?` replaced by `match .. { Ok(v) => v, Err(e) => return Err(From::from(e)) }`' % n_try)
         for lname in self.inline_lits:
             ms = [m for m in find_inline_literals(body) if not re.search(r'const\s+\w+\s*:\s*&\[u8\]\s*=\s*$', body[:m.start()])]
             if len(ms) != 1:
@@ -527,19 +569,58 @@ def _unq(s):
     return s.replace('\\"', '"').replace('\\\\', '\\').replace('\\n', '\n')
 
 
+def preprocess(tmpl_text, read_include):
+    """//@define NAME, //@include-template FILE, //@ifdef NAME .. //@endif (not nested): lets one template carry an
+    optional group of functions (frame.rs.tmpl + the I/O functions for C15) without duplicating any contract text."""
+    defs = set()
+    out = []
+    stack = [tmpl_text.split('\n')]
+    skipping = False
+    while stack:
+        lines = stack.pop()
+        i = 0
+        while i < len(lines):
+            st = lines[i].strip()
+            i += 1
+            if st.startswith('//@define '):
+                defs.add(st.split()[1])
+            elif st.startswith('//@include-template '):
+                stack.append(lines[i:])
+                stack.append(read_include(st.split()[1]).split('\n'))
+                break
+            elif st.startswith('//@ifdef '):
+                skipping = st.split()[1] not in defs
+            elif st.startswith('//@ifndef '):
+                skipping = st.split()[1] in defs
+            elif st == '//@endif':
+                skipping = False
+            elif skipping:
+                pass
+            elif st.startswith('//@include '):
+                # plain includes are spliced here too, so that conditional sections work inside them
+                out.append('//@included ' + st.split()[1])
+                stack.append(lines[i:])
+                stack.append(read_include(st.split()[1]).split('\n'))
+                break
+            elif st == '//@endif':
+                skipping = False
+            elif not skipping:
+                out.append(lines[i - 1])
+    return '\n'.join(out)
+
+
 def expand_template(tmpl_text, read_repo, read_include=None):
     """read_repo(relpath) -> source text.  Returns (generated_text, report)."""
     out = []
     report = {'functions': [], 'types': [], 'consts': []}
+    tmpl_text = preprocess(tmpl_text, read_include)
     lines = tmpl_text.split('\n')
     i = 0
     while i < len(lines):
         ln = lines[i]
         st = ln.strip()
-        if st.startswith('//@include '):
-            inc = st.split()[1]
-            out.append(read_include(inc))
-            report.setdefault('includes', []).append(inc)
+        if st.startswith('//@included '):
+            report.setdefault('includes', []).append(st.split()[1])
             i += 1
             continue
         if st.startswith('//@lit '):
@@ -666,6 +747,9 @@ def expand_template(tmpl_text, read_repo, read_include=None):
                         if not m:
                             raise ExtractionError('bad directive: ' + s2)
                         ed.rewrites_re.append((_unq(m.group(1)), _unq(m.group(2)), int(m.group(3) or 1)))
+                        cur = None
+                    elif d == 'desugar-try':
+                        ed.desugar_try = True
                         cur = None
                     elif d.startswith('bytes-const '):
                         ed.bytes_consts.append(d.split()[1])
